@@ -548,3 +548,62 @@ def _brief(n):
     if isinstance(n, tuple):
         return list(n)
     return {"n_items": len(n["rows"]), "columns": n["columns"]}
+
+
+# ---------------------------------------------------------------------------------------------- explicit-spec route (added by main)
+def explicit_spec(tier, seed):
+    """Grid.from_dataset(ds, source_grid_spec=...) and Grid(ds, source_grid_spec=...) on a dataset that already follows the internal
+    naming: construction and every later lazy derivation must leave the caller's dataset (variables, values, attrs) as it was."""
+    import copy as _copy
+    import numpy as _np
+    from . import meshgen as _mg
+    from .common import grid_of as _grid_of, result as _result
+    failures, cases, distinct = [], 0, 0
+    meshes = _mg.small_meshes()[:6] + [_mg.quad_patch(2, 1, lon0=170.0)] + (_mg.closed_meshes()[:3] if tier == "thorough" else [])
+    derive = ("face_areas", "edge_node_connectivity", "face_lon", "node_x", "n_nodes_per_face", "bounds")
+    for m in meshes:
+        for lon360 in (False, True):
+            for route in ("from_dataset", "constructor"):
+                base = _grid_of(m)._ds.copy(deep=True)
+                if lon360:
+                    base["node_lon"].data = _np.where(base["node_lon"].values < 0, base["node_lon"].values + 360.0, base["node_lon"].values)
+                base.attrs["title"] = "caller's dataset"
+                snap_vals = {k: _np.array(v.values, copy=True) for k, v in base.variables.items()}
+                snap_attrs = _copy.deepcopy(dict(base.attrs))
+                snap_vattrs = {k: _copy.deepcopy(dict(v.attrs)) for k, v in base.variables.items()}
+                import uxarray as _ux
+                g = _ux.Grid.from_dataset(base, source_grid_spec="HandMade") if route == "from_dataset" else _ux.Grid(base, source_grid_spec="HandMade")
+                distinct += 1
+                for stage in ("construction",) + derive:
+                    if stage != "construction":
+                        try:
+                            getattr(g, stage)
+                        except Exception:
+                            continue
+                    cases += 1
+                    what = None
+                    if set(base.variables) != set(snap_vals):
+                        what = ("variables", sorted(set(base.variables) ^ set(snap_vals)))
+                    elif dict(base.attrs) != snap_attrs:
+                        what = ("attrs", {k: base.attrs.get(k) for k in set(base.attrs) ^ set(snap_attrs)} or "changed value")
+                    else:
+                        for k, v in snap_vals.items():
+                            if not _np.array_equal(base[k].values, v, equal_nan=True) if v.dtype.kind == "f" else not _np.array_equal(base[k].values, v):
+                                what = ("values", k)
+                                break
+                            if dict(base[k].attrs).keys() != snap_vattrs[k].keys():
+                                what = ("variable_attrs", k)
+                                break
+                    if what is not None:
+                        # the bare constructor documents that it takes over the dataset it is given; only from_dataset is judged for
+                        # variables the grid derives later - construction itself must not touch values / attrs on either route
+                        if route == "constructor" and stage != "construction":
+                            continue
+                        failures.append({"key": f"input_modified:{route}(source_grid_spec):{what[0]}:{'construction' if stage == 'construction' else 'lazy_derivation'}"
+                                                f"{':lon_0_360' if lon360 and what[0] == 'values' else ''}",
+                                         "what": f"{route} with an explicit source_grid_spec changed the caller's dataset ({what[0]}: {what[1]}) at stage {stage}",
+                                         "violated": "building a grid does not modify the dataset it is built from",
+                                         "inputs": {"mesh": m["name"], "route": route, "lon_0_360": lon360, "stage": stage}})
+                        break
+    return _result(cases, distinct, failures, f"{len(meshes)} meshes x lon convention x {{from_dataset, constructor}} with explicit source_grid_spec; "
+                   f"dataset snapshot compared after construction and after each of {len(derive)} lazy derivations")
